@@ -18,6 +18,8 @@ var kvPrefixOf = map[string]string{
 	"Locker.GetIDForLocker":            "17",
 	"Collector.GetNetFeeCollectedData": "08", "Collector.GetAppNetFeeCollectedData": "08", "Collector.GetAllNetFeeCollectedData": "08",
 	"Collector.GetCollectorLookupTable": "01", "Collector.GetCollectorLookupTableByApp": "01", "Collector.GetAllCollectorLookupTable": "01",
+	"Collector.GetAuctionMappingForApp": "05", "Collector.GetAllAuctionMappingForApp": "05",
+	"Collector.GetAppToDenomsMapping": "07", "Collector.GetAllAppToDenomsMapping": "07",
 	"Lend.GetFundModBalByAssetPool":          "51",
 	"LiquidationV2.GetLockedVaultID":         "03",
 	"LiquidationV2.GetAppReserveFundsTxData": "07",
@@ -172,7 +174,7 @@ func RoundTrip(o *Chain, lg *sim.Log, parent int, run string, pointArgs map[stri
 			stt.PartDiffs++
 		}
 		lg.Add(rt, run, "Part", map[string]interface{}{"comp": po[k].Comp, "part": po[k].Name, "judged": !infoOnly[full]}, nil,
-			map[string]interface{}{"o": po[k].Digest, "c": pc[k].Digest, "on": po[k].N, "cn": pc[k].N, "sym": d.Sym,
+			map[string]interface{}{"o": po[k].Digest, "c": pc[k].Digest, "on": po[k].N, "cn": pc[k].N, "sym": d.Sym, "keys": d.Keys,
 				"store": store, "prefix": pre, "kv": kvStatus(kv, store, pre)})
 	}
 	if !withConts {
@@ -460,3 +462,21 @@ func okCode(r TxRes) string {
 }
 
 var _ = fmt.Sprint
+
+// RunProbe: configuration + ProbeNonGenesisSecondary, two blocks, one round trip (observation only), as run
+// "probe:nongenesis-secondary". Kept apart from the workloads so that its (known) loss of the auction-mapping table
+// cannot mask anything there.
+func RunProbe(lg *sim.Log, stt *RTStats) {
+	run := "probe:nongenesis-secondary"
+	c := NewFresh(Funds())
+	for _, s := range append(WorldSteps(), ProbeNonGenesisSecondary()) {
+		if r := c.Exec(s); !r.OK {
+			panic("probe world step failed: " + s.Tag + ": " + r.Err)
+		}
+	}
+	c.EndCommit()
+	c.Begin(6 * time.Second)
+	c.EndCommit()
+	root := lg.Add(0, run, "Init", map[string]interface{}{"probe": "nongenesis-secondary"}, nil, map[string]interface{}{"h": 1})
+	RoundTrip(c, lg, root, run, map[string]interface{}{"k": 1, "h": c.Height}, false, stt)
+}
